@@ -695,6 +695,23 @@ pub fn f6(b: &Bounds) -> Vec<GenProg> {
             },
         });
     }
+    // union head whose branches are aggregate clauses (same / different aggregate, one plain branch), queried
+    // directly and through a reader rule
+    for (a1, a2) in [(Agg::Sum, Agg::Sum), (Agg::Count, Agg::Count), (Agg::Min, Agg::Max), (Agg::Count, Agg::Sum)] {
+        let c1 = Clause { rel: "g".into(), head: vec![HeadArg::T(X), HeadArg::A(a1, 1)], body: vec![pos("e", &[X, Y])] };
+        let c2 = Clause { rel: "g".into(), head: vec![HeadArg::T(X), HeadArg::A(a2, 1)], body: vec![pos("f", &[X, Y])] };
+        out.push(GenProg { family: "F6", prog: Program { clauses: vec![c1.clone(), c2.clone(), q(&[X, Y], vec![pos("g", &[X, Y])])] } });
+        let mut d1 = c1.clone();
+        d1.rel = "q".into();
+        let mut d2 = c2.clone();
+        d2.rel = "q".into();
+        out.push(GenProg { family: "F6", prog: Program { clauses: vec![d1, d2] } });
+    }
+    {
+        let c1 = Clause { rel: "g".into(), head: vec![HeadArg::T(X), HeadArg::A(Agg::Count, 1)], body: vec![pos("e", &[X, Y])] };
+        let c2 = clause("g", &[X, Y], vec![pos("f", &[X, Y])]);
+        out.push(GenProg { family: "F6", prog: Program { clauses: vec![c1, c2, q(&[X, Y], vec![pos("g", &[X, Y])])] } });
+    }
     // aggregate over an IDB union
     out.push(GenProg {
         family: "F6",
